@@ -23,6 +23,7 @@ RULE = (
     "1 or that lies behind a header or a ragged row; distinct by hash of (CID rows, table, via)."
     "The consumer overwrites every delivered row after copying it; ODS data are stored with runs of equal rows / cells; sources include spooled temporary files (name None); with checks in the CID two readings are set up under one Cid before either is consumed and both are judged."
     "The consumer also moves the locations of every error it is handed. ODS cells may carry comments; delimited tables may hold empty lines."
+    "Inputs are also named 'growth 50%', 'rate%s', 'a%(x)s', '{0}'; ODS cells may hold a table of their own."
 )
 ASSUMPTIONS = [
     "cells come from pools with a definite verdict; a neutral cell taints the rest of the table (not judged)",
